@@ -129,6 +129,10 @@ var curated = []string{
 	"T | project a, a, b = a, a = b",
 	"T | extend x = 1, y = 2 | extend x = y, y = x",
 	"T | where x in (1, 2, 3) and y in ('a', 'b') or n in (x, y)",
+	// lets that read a parameter (valid only when the parameter is supplied)
+	"let lim2 = lim; T | take lim2",
+	"let a1 = x; let b1 = a1 + y; T | where k == b1 | project a1, n",
+	"let q = s; T | where State == q",
 	// several stages that each fail at compile time (which error is reported?)
 	"T | where not() | project a = strcat() | project b = isnull() | count",
 	"T | where a == 1 | extend x = now(1) | where iif(a) | summarize count(1) by k",
